@@ -229,6 +229,11 @@ type hListener struct {
 
 	failLate bool // guarded by m.mu: Close leaves pending inner accepts to failPending
 
+	// closeErr: Close closes the listener and reports an error all the same (as
+	// a listener does whose owner has already closed it underneath).  Set
+	// before the listener is used.
+	closeErr bool
+
 	// guarded by m.mu
 	closed     bool
 	closeBegun int // log index of the first limited Close begin, -1
@@ -295,10 +300,14 @@ func (l *hListener) Close() error {
 		return net.ErrClosed
 	}
 	l.closed = true
+	var cerr error
+	if l.closeErr {
+		cerr = errInnerListenerClose
+	}
 	if l.failLate {
 		// The pending inner accepts notice the close later (failPending): an
 		// Accept of a real listener may return any time after Close.
-		return nil
+		return cerr
 	}
 	for _, w := range l.waiters {
 		w.innerEnd = m.add("inner-accept-err", w, l.idx, 0, "listener closed")
@@ -308,8 +317,10 @@ func (l *hListener) Close() error {
 		close(w.wait)
 	}
 	l.waiters = nil
-	return nil
+	return cerr
 }
+
+var errInnerListenerClose = errors.New("c18: injected listener close failure: listener is closed, but the close reported an error")
 
 // failPending makes the oldest pending inner Accept of l return an error: a
 // temporary one while l is open, net.ErrClosed if l has been closed.
@@ -700,7 +711,7 @@ var discard = slog.New(slog.NewTextHandler(io.Discard, nil))
 
 func (s *sched) addListener() *hListener {
 	i := len(s.ls)
-	l := &hListener{m: s.m, idx: i, name: fmt.Sprintf("c18-%d-s%d-l%d", s.r.Seed, s.Idx, i), closeBegun: -1}
+	l := &hListener{m: s.m, idx: i, name: fmt.Sprintf("c18-%d-s%d-l%d", s.r.Seed, s.Idx, i), closeBegun: -1, closeErr: s.rng.IntN(10) < 3}
 	l.info = &dnsserver.ServerInfo{Name: l.name, Addr: "127.0.0.1:0", Proto: dnsserver.ProtoDoT}
 	l.limited = s.lim.Limit(l, l.info)
 	s.ls = append(s.ls, l)
@@ -1000,6 +1011,9 @@ func (s *sched) collect(upTo int) (evs, hyp []mev) {
 					if c.parkedAtQ {
 						s.feat.lcloseWaiter = true
 						r.Bucket("limiter_waiters_released_by_listener_close", 1)
+						if l.closeErr {
+							r.Bucket("limiter_waiters_released_by_listener_close_with_inner_close_error", 1)
+						}
 					} else {
 						r.Bucket("limiter_accepts_on_closed_listener", 1)
 					}
@@ -1151,6 +1165,18 @@ func (s *sched) settle() {
 				continue
 			}
 			key, what := "limiter:listener-close-left-waiter-parked", "an Accept is still parked inside the limiter after its listener's Close has returned"
+			m.mu.Lock()
+			innerErr := false
+			for _, c := range wClosed {
+				if s.ls[c.L].closeErr {
+					innerErr = true
+				}
+			}
+			m.mu.Unlock()
+			if innerErr {
+				key += ":inner-listener-close-returned-error"
+				what = "the wrapped listener's Close returned an error (the listener is closed all the same); " + what
+			}
 			if s.inHookRound {
 				key += ":closed-between-check-and-wait"
 				what = "the listener was closed while its Accept had found that it must wait but had not gone to sleep yet (held at the limiter's own \"accept waiting\" log record); Close has returned, " + what
@@ -1612,6 +1638,7 @@ func (s *sched) closeWindowProbe() {
 		return
 	}
 	a, b := s.addListener(), s.addListener()
+	b.closeErr = s.Idx%2 == 0
 	for i := 0; i < s.Stop && !s.dead; i++ {
 		s.runRound(action{Kind: "accept", L: a.idx, PreDial: true, CloseErr: 1 + i%2})
 	}
@@ -1718,6 +1745,9 @@ func (s *sched) hookedCloseRound(b *hListener) {
 	m.mu.Unlock()
 	if ok {
 		s.r.Bucket("limiter_listener_closed_while_accept_between_check_and_wait", 1)
+		if b.closeErr {
+			s.r.Bucket("limiter_listener_closed_while_accept_between_check_and_wait_inner_close_error", 1)
+		}
 		if closedInWindow {
 			s.r.Bucket("limiter_listener_close_completed_inside_the_window", 1)
 		} else {
@@ -1734,6 +1764,7 @@ func (s *sched) probe() {
 		return
 	}
 	p := s.addListener()
+	p.closeErr = s.Idx%3 != 0
 	variant := s.rng.IntN(3)
 	nDial := s.Stop + 2
 	if variant == 2 {
@@ -2379,6 +2410,8 @@ func TestCheck(t *testing.T) {
 	r.Require("limiter_pending_accepts_failed_by_listener_close", int64(r.N(40, 400)))
 	r.Require("limiter_concurrent_rounds", int64(r.N(500, 5000)))
 	r.Require("limiter_listener_closed_while_accept_between_check_and_wait", int64(r.N(300, 3000)))
+	r.Require("limiter_listener_closed_while_accept_between_check_and_wait_inner_close_error", int64(r.N(150, 1500)))
+	r.Require("limiter_waiters_released_by_listener_close_with_inner_close_error", int64(r.N(200, 2000)))
 	r.Require("limiter_connections_closed_with_inner_close_error", int64(r.N(1000, 10000)))
 	r.Require("limiter_close_error_probes_set_up", int64(r.N(300, 3000)))
 	r.Require("limiter_failed_pending_accept_resumed_limiter_with_waiters_elsewhere", int64(r.N(300, 3000)))
